@@ -24,6 +24,8 @@ pub struct Ctx {
     pub n_min0_coq: usize, pub cap_min0_coq: usize,
     pub model_uintvec: bool, pub n_uintvec_coq: usize, pub cap_uintvec_coq: usize,
     pub model_min0typed: bool, pub n_min0typed_coq: usize, pub cap_min0typed_coq: usize,
+    /// replaying corpus/C09 at the start of a run: cases whose model evaluation is very expensive are decided by the oracle only
+    pub corpus_mode: bool,
 }
 
 fn le_number(data: &[u8]) -> String {
@@ -347,6 +349,7 @@ pub fn run(args: &Args) {
         n_min0_coq: 0, cap_min0_coq: if th { 3000 } else { 350 },
         model_uintvec: MODEL_UINTVEC, n_uintvec_coq: 0, cap_uintvec_coq: if th { 1500 } else { 150 },
         model_min0typed: MODEL_MIN0TYPED, n_min0typed_coq: 0, cap_min0typed_coq: if th { 500 } else { 50 },
+        corpus_mode: false,
     };
     let mut rng = Rng::new(args.seed);
     if let Some(f) = &args.replay {
@@ -364,7 +367,9 @@ pub fn run(args: &Args) {
         for p in files {
             if let Ok(v) = serde_json::from_str::<Value>(&std::fs::read_to_string(&p).unwrap_or_default()) {
                 let c = if v.get("case").is_some() { v["case"].clone() } else { v };
+                cx.corpus_mode = true;
                 run_one(&mut cx, &c, &mut rng);
+                cx.corpus_mode = false;
                 cx.sum.dist("corpus_cases");
             }
         }
